@@ -118,6 +118,12 @@ Example c07_lg_assumption_satisfiable :
   (forall a b, 0 < snd a -> 0 < snd b -> fnorm a = fnorm b -> feq a b).
 Proof. split; [exact fnorm_ext | exact fnorm_injective]. Qed.
 
+(* why negative values must be rejected before normalising: with a non-positive row sum the
+   denominator is 1 and scale invariance is lost (the hypothesis 0 <= x of (1) is needed) *)
+Example c07_scale_needs_nonnegative_counts :
+  ~ Forall2 feq (cpm_row (map (Z.mul 2) [1; -1])) (cpm_row [1; -1]).
+Proof. vm_compute. intros H. inversion H; subst. discriminate. Qed.
+
 (* why the guard matters: normalising AFTER down-selecting to genes 1,2 would give CPM
    500000 where normalising on the full gene set gives 250000; the model (like the code)
    refuses the first order *)
